@@ -33,11 +33,14 @@ MUTATORS = {
         ("unlink keeps outer", r"quimb/tensor/tensor_core\.py$", r"^(\s+)self\._outer_inds\.discard\(ind\)\s*$", None),
     ],
     "C03": [
+        ("hand-over without alignment", r"quimb/tensor/tensor_core\.py$", r"^(\s+)tb_compressed\.transpose_like_\(tb\)\s*$", None),
         ("idiom -> alias", r"quimb/tensor/.*\.py$", r"^(\s+)(\w+) = (\w+) if inplace else \3\.copy\(\)\s*$", r"\1\2 = \3"),
         ("derived cache not reset", r"quimb/tensor/tnag/core\.py$", r"^(\s+)self\._(site_tag_set|site_tags|site_inds|upper_inds|lower_inds) = None\s*$", None, r"^(site_tag_id|site_ind_id|upper_ind_id|lower_ind_id)$"),
         ("alias bound to other method", r"quimb/tensor/tensor_core\.py$", r"^(\s+)retag_ = functools\.partialmethod\(retag, inplace=True\)\s*$", r"\1retag_ = functools.partialmethod(reindex, inplace=True)"),
     ],
     "C04": [
+        ("merged index collapsed on one tensor only", r"quimb/tensor/tensor_core\.py$", r"^(\s+)tx\.collapse_repeated_\(\)\s*$", r"\1pass"),
+        ("gauge applied conditioned, recorded raw", r"quimb/tensor/tensor_core\.py$", r"^(\s+)t\.multiply_index_diagonal_\(ix, g\)\s*$", r"\1t.multiply_index_diagonal_(ix, g ** 1.0)", r"^gauge_simple_insert$"),
         ("idiom -> alias (rewrites)", r"quimb/tensor/tensor_core\.py$", r"^(\s+)(\w+) = (\w+) if inplace else \3\.copy\(\)\s*$", r"\1\2 = \3",
          r"^_?(gauge_|canonize|equalize_norms|balance_bonds|fuse_multibonds|squeeze|rank_simplify|diagonal_reduce|antidiag_gauge|column_reduce|split_simplify|pair_simplify|loop_simplify|full_simplify|hyperinds_resolve|compress|insert_gauge|isometrize|unitize|normalize|randomize|expand_bond|astype)"),
         ("modify keeps flag on data", r"quimb/tensor/tensor_core\.py$", r"^(\s+)self\._left_inds = None\s*$", None),
@@ -57,20 +60,26 @@ MUTATORS = {
         ("lower clamp", r"quimb/tensor/decomp\.py$", r"^(\s+)return max\(n_chi, 1\)\s*$", r"\1return n_chi"),
     ],
     "C06": [
+        ("gate MPO with default tags", r"quimb/tensor/tn1d/core\.py$", r"^(\s+)site_tag_id=self\.site_tag_id,\s*$", None, r"^gate_nonlocal$"),
+        ("gate MPO with its own cutoff", r"quimb/tensor/tn1d/core\.py$", r"^(\s+)from_dense_opts\[\"cutoff\"\] = compress_opts\[\"cutoff\"\]\s*$", r"\1pass"),
         ("idiom -> alias (gates)", r"quimb/tensor/(gating|tnag/core|tn1d/core)\.py$", r"^(\s+)(\w+) = (\w+) if inplace else \3\.copy\(\)\s*$", r"\1\2 = \3", r"gate|apply"),
         ("drop transpose", r"quimb/tensor/(gating|tnag/core|tn1d/core)\.py$", r"^(\s+)transpose=transpose,\s*$", None),
         ("literal bond name", r"quimb/tensor/gating\.py$", r"^(\s+)tnG_spat = TG\.split\(\(\"l0\", \"r0\"\), bond_ind=bix, \*\*compress_opts\)\s*$", r'\1tnG_spat = TG.split(("l0", "r0"), bond_ind="bond", **compress_opts)'),
         ("attach without reindex", r"quimb/tensor/gating\.py$", r"^(\s+)tn\.reindex_\(reindex_map\)\s*$", None),
     ],
     "C07": [
+        ("tags into the wrong constructor slot", r"quimb/tensor/circuit/exact\.py$", r"^(\s+)super\(\)\.__init__\(N, psi0, gate_opts, tags=tags, \*\*circuit_opts\)\s*$", r"\1super().__init__(N, psi0, gate_opts, tags, **circuit_opts)"),
         ("drop staleness check", r"quimb/tensor/circuit/(exact|mps)\.py$", r"^(\s+)self\._maybe_init_storage\(\)\s*$", None,
          # (these four only reach the caches through callees that carry their own guard: dropping theirs changes nothing)
          r"^(?!amplitude$|compute_marginal$|sample_rehearse$|sample_chaotic_rehearse$)"),
         ("drop clear_storage", r"quimb/tensor/circuit/(core|mps)\.py$", r"^(\s+)self\.clear_storage\(\)\s*$", None),
     ],
     "C08": [
+        ("swap record not widened", r"quimb/tensor/tn1d/core\.py$", r"^(\s+)info\[\"cur_orthog\"\] = \(i, j\)\s*$", r"\1pass", r"^swap_sites_with_compress$"),
         ("drop info=info", r"quimb/tensor/tn1d/core\.py$", r"^(\s+.*)\binfo=info, (.*)$", r"\1\2"),
-        ("drop record store", r"quimb/tensor/tn1d/core\.py$", r"^(\s+)info\[\"cur_orthog\"\] = .*$", r"\1pass"),
+        ("drop record store", r"quimb/tensor/tn1d/core\.py$", r"^(\s+)info\[\"cur_orthog\"\] = .*$", r"\1pass",
+         # (the operator 'sandwich' variant re-centres a record its callee was already handed; the record discipline of MPOs is not modelled)
+         r"^(?!gate_sandwich_with_auto_swap$)"),
         ("drop fork", r"quimb/tensor/tn1d/core\.py$", r"^(\s+)info = info\.copy\(\)\s*$", r"\1pass"),
         ("swap: left records right site", r"quimb/tensor/tn1d/core\.py$", r"^(\s+)info\[\"cur_orthog\"\] = \(i, i\)\s*$", r'\1info["cur_orthog"] = (j, j)'),
         ("swap: factors written to the other site", r"quimb/tensor/tn1d/core\.py$", r"^(\s+)Ti\.modify\(data=sTi\.data\)\s*$", r"\1Tj.modify(data=sTi.data)"),
@@ -79,6 +88,9 @@ MUTATORS = {
         ("submpo: ends swapped", r"quimb/tensor/tn1d/core\.py$", r"^(\s+)info\[\"cur_orthog\"\] = \(sf, sf\)\s*$", r'\1info["cur_orthog"] = (si, si)'),
     ],
     "C09": [
+        ("MPO chain closed at L", r"quimb/tensor/tn1d/core\.py$", r"^(\s+)if \(i \+ 1\) < num_sites or cyclic:\s*$", r"\1if (i + 1) < L or cyclic:", r"^from_fill_fn$"),
+        ("identity MPO forgets L", r"quimb/tensor/tensor_builder\.py$", r"^(\s+)mpo_opts\[\"L\"\] = L\s*$", None),
+        ("direct product keeps the isometry flag", r"quimb/tensor/tensor_core\.py$", r"^(\s+)new_T\.modify\(data=new_data\)\s*$", r"\1new_T.modify(data=new_data, left_inds=T1.left_inds)"),
         ("drop cap", r"quimb/tensor/tn1d/(compress|core)\.py$", r"^(\s+)max_bond=max_bond,\s*$", None),
         ("drop cutoff", r"quimb/tensor/tn1d/(compress|core)\.py$", r"^(\s+)cutoff=cutoff,\s*$", None),
         ("idiom -> alias (1d)", r"quimb/tensor/tn1d/compress\.py$", r"^(\s+)(\w+) = (\w+) if inplace else \3\.copy\(\)\s*$", r"\1\2 = \3"),
@@ -103,6 +115,8 @@ MUTATORS = {
         ("boundary gate on sorted pair", r"quimb/tensor/tn1d/tebd\.py$", r"^(\s+)U, where=sites, absorb=\"left\", \*\*self\.split_opts\s*$", r'\1U, where=(0, self.L - 1), absorb="left", **self.split_opts'),
     ],
     "C12": [
+        ("skip predicate looks at one tensor only", r"quimb/tensor/tensor_core\.py$", r"^(\s+)and \(len\(tn\._get_neighbor_tids\(\[tid2\]\)\) <= 2\)\s*$", r"\1and (len(tn._get_neighbor_tids([tid1])) <= 2)"),
+        ("canonize options not handed on", r"quimb/tensor/tensor_core\.py$", r"^(\s+)canonize_opts=canonize_opts,\s*$", None, r"^_contract_around_tids$"),
         ("drop cap (boundary)", r"quimb/tensor/(tn2d/core|tn3d/core|tnag/compress|tensor_core)\.py$", r"^(\s+)max_bond=max_bond,\s*$", None),
         ("drop cutoff (boundary)", r"quimb/tensor/(tn2d/core|tn3d/core|tnag/compress|tensor_core)\.py$", r"^(\s+)cutoff=cutoff,\s*$", None),
         ("guard flipped", r"quimb/tensor/(tn2d|tn3d)/core\.py$", r"^(\s+)if bonds_size\(t1, tn\) > max_bond:\s*$", r"\1if bonds_size(t1, tn) < max_bond:"),
@@ -121,6 +135,10 @@ MUTATORS = {
         ("drop rehearse", r"quimb/tensor/(tnag/core|tn1d/core|tn2d/core|tn3d/core)\.py$", r"^(\s+)rehearse=rehearse,\s*$", None),
     ],
     "C14": [
+        ("pair normalised by magnitude only", r"quimb/tensor/belief_propagation/bp_common\.py$", r"^(\s+)return mi / \(sij \* nij \* nii / njj\), mj / \(nij \* njj / nii\)\s*$", r"\1return mi / (nij * nii / njj), mj / (nij * njj / nii)"),
+        ("loop expansion without single tensor regions", r"quimb/tensor/belief_propagation/(hd1bp|d1bp|d2bp)\.py$", r"^(\s+)itertools\.chain\(gloops, \(\(tid,\) for tid in self\.tn\.tensor_map\)\)(,?)\s*$", r"\1gloops\2"),
+        ("scalar tensors dropped from the batched value", r"quimb/tensor/belief_propagation/hv1bp\.py$", r"^(\s+)if t\.ndim == 0:\s*$", r"\1if False:"),
+        ("message pair normalisation keeps the memo", r"quimb/tensor/belief_propagation/d2bp\.py$", r"^(\s+)self\._messages_conditioned\.pop\(\(ix, tida\), None\)\s*$", None, r"^normalize_message_pairs$"),
         ("route forgets exponent", r"quimb/tensor/belief_propagation/\w+\.py$", r"^(\s+)exponent=self\.exponent,\s*$", None),
         ("unit mismatch", r"quimb/tensor/belief_propagation/(l2bp|d1bp|hd1bp)\.py$", r"^(\s+)exponent=self\.exponent( \* 2)?,\s*$", lambda m: m.group(1) + ("exponent=self.exponent," if m.group(2) else "exponent=self.exponent * 2,")),
         ("right message not transposed (d2bp)", r"quimb/tensor/belief_propagation/d2bp\.py$", r"^(\s+)mr_raw = self\.messages\[ix, tida\]\.T\s*$", r"\1mr_raw = self.messages[ix, tida]"),
@@ -151,6 +169,7 @@ MUTATORS = {
         ("stride ignores rank", r"quimb/operator/configcore\.py$", r"^(\s+)for ci in range\(world_rank, D, world_size\):\s*$", r"\1for ci in range(0, D, world_size):"),
     ],
     "C17": [
+        ("adjoint without conjugation", r"quimb/linalg/base_linalg\.py$", r"^(\s+)return np\.conj\(self\.factor\) \* vec\s*$", r"\1return self.factor * vec"),
         ("setting from wrong name", r"quimb/linalg/base_linalg\.py$", r"^(\s+)\"return_vecs\": return_vecs,\s*$", r'\1"return_vecs": True,'),
         ("dense table", r"quimb/linalg/numpy_linalg\.py$", r"^(\s+)\(True, False, False\): nla\.eigvalsh,\s*$", r"\1(True, False, False): nla.eigvals,"),
         ("values sorted without vectors", r"quimb/linalg/numpy_linalg\.py$", r"^(\s+)lk, vk = lk\[so\], vk\[:, so\]\s*$", r"\1lk = lk[so]"),
